@@ -359,30 +359,34 @@ class G:
         return ("num", self.gen_int(min(d - 1, 1), "count"))
 
     def sset(self):
-        """(form, indices) mimicking yr_parser_emit_pushes_for_strings"""
+        """(form, indices): a string set as written and the strings it denotes (c04lang.set_indices: exact items denote one
+        string, `p*` items every string whose identifier starts with p).  Identifiers may be prefixes of one another
+        ($_a, $_ab, $_a1): an exact item `$_a` must not pull in `$_ab`."""
         r = self.r
         names = [s[0] for s in self.rule.strs]
+        prefixes = sorted({n[:k] for n in names for k in range(2, len(n) + 1)})      # "$_", "$_a", "$_ab", ...
         u = r.random()
-        if u < 0.30:
+        shorts = [i for i, n in enumerate(names) if any(m != n and m.startswith(n) for m in names)]
+        if shorts and r.random() < 0.5:
+            # the item whose exact / prefix reading differ: alone, doubled, next to its extension, next to a wildcard
+            k = r.choice(shorts)
+            ext = r.choice([i for i, m in enumerate(names) if m != names[k] and m.startswith(names[k])])
+            form = r.choice([[("id", k)], [("id", k)], [("id", k), ("id", ext)], [("id", ext), ("id", k)], [("id", k), ("id", k)],
+                             [("id", k), ("wild", names[ext])], [("wild", names[ext]), ("id", k)]])
+            return (form, L.set_indices(form, names))
+        if u < 0.25:
             form = [("them",)]
-        elif u < 0.38:
+        elif u < 0.31:
             form = [("all",)]
-        elif u < 0.60:
-            form = [("wild", r.choice(["$_a", "$_b", "$_"]))]
+        elif u < 0.48:
+            form = [("wild", r.choice(prefixes))]
         else:
-            form = [("id", r.randrange(len(names))) for _ in range(r.choice([1, 1, 2, 2, 3]))]
-            if r.random() < 0.25:
-                form.insert(r.randrange(len(form) + 1), ("wild", r.choice(["$_a", "$_b"])))
-        # a wildcard that matches no string is a compile error (ERROR_UNDEFINED_STRING)
-        form = [it for it in form if it[0] != "wild" or any(n.startswith(it[1]) for n in names)]
-        idx = []
-        for it in form:
-            if it[0] == "id":
-                idx.append(it[1])
-            elif it[0] == "wild":
-                idx += [i for i, n in enumerate(names) if n.startswith(it[1])]
-            else:
-                idx += list(range(len(names)))
+            form = [("id", r.randrange(len(names))) for _ in range(r.choice([1, 1, 1, 2, 2, 3]))]
+            if r.random() < 0.35:
+                form.insert(r.randrange(len(form) + 1), ("wild", r.choice(prefixes)))
+            if r.random() < 0.06:
+                form.insert(r.randrange(len(form) + 1), ("them",))
+        idx = L.set_indices(form, names)
         if not idx:
             return ([("them",)], list(range(len(names))))
         return (form, idx)
@@ -390,9 +394,15 @@ class G:
     def rset(self):
         r = self.r
         k = self.idx
-        if self.rule.name == "rz" and r.random() < 0.4:
-            return ([("wild", "ra")], list(range(k)))
-        ids = [r.randrange(k) for _ in range(r.choice([1, 2, 2, 3]))]
+        rnames = [ru.name for ru in self.c.rules[:k]]
+        # a wildcard rule set forbids later rules whose names match it: only the last rule uses them
+        if self.rule.name == "rz" and r.random() < 0.45:
+            prefixes = sorted({n[:j] for n in rnames for j in range(2, len(n) + 1)})       # not "r": it would match rz itself
+            form = [("wild", r.choice(prefixes))]
+            if r.random() < 0.4:
+                form.insert(r.randrange(2), ("id", r.randrange(k)))
+            return (form, L.set_indices(form, rnames))
+        ids = [r.randrange(k) for _ in range(r.choice([1, 1, 2, 2, 3]))]
         return ([("id", i) for i in ids], ids)
 
     # ---- boolean expressions
@@ -688,6 +698,11 @@ def special_strings(r):
     return buf, out
 
 
+# identifiers that are proper prefixes of one another: an exact set item ($_a, ra) must not denote the longer ones ($_ab, rab)
+SFAMILY = ["$_a", "$_ab", "$_abc", "$_a1", "$_b", "$_ba", "$_b1", "$_a_"]
+RFAMILY = ["ra", "rab", "rabc", "ra1", "rb", "rba"]
+
+
 def gen_case(r, maxdepth=MAXDEPTH):
     """-> Case with rules whose conditions are expected to compile; retried internally"""
     for _ in range(200):
@@ -712,18 +727,21 @@ def gen_case(r, maxdepth=MAXDEPTH):
         if len(c.buf) >= 4 and r.random() < 0.12 and not special:
             c.cuts = sorted(set(r.randrange(1, len(c.buf)) for _ in range(r.choice([1, 1, 2]))))
         blocks = c.blocks()
+        rnames = r.sample(RFAMILY, nrules) if r.random() < 0.45 else ["ra%d" % k for k in range(nrules)]
         try:
             for k, pats in enumerate(plan):
-                rule = Rule("rz" if k == nrules - 1 else "ra%d" % k)
+                rule = Rule("rz" if k == nrules - 1 else rnames[k])
                 cnt = {"a": 0, "b": 0}
-                for p in pats:
+                family = r.sample(SFAMILY, len(pats)) if r.random() < 0.45 else None      # identifiers that are prefixes of one another
+                for j, p in enumerate(pats):
                     pre = r.choice("ab")
                     cnt[pre] += 1
+                    ident = family[j] if family else "$_%s%d" % (pre, cnt[pre])
                     if isinstance(p, tuple):        # special string: (declaration, true matches)
                         decl, ms = p
-                        rule.strs.append(("$_%s%d" % (pre, cnt[pre]), decl, ms if isinstance(decl, str) else true_matches(decl, blocks)))
+                        rule.strs.append((ident, decl, ms if isinstance(decl, str) else true_matches(decl, blocks)))
                     else:
-                        rule.strs.append(("$_%s%d" % (pre, cnt[pre]), p, true_matches(p, blocks)))
+                        rule.strs.append((ident, p, true_matches(p, blocks)))
                 g = G(c, rule, k)
                 d = r.choice([1, 2, 3, 3, 4, 4, 5, maxdepth])
                 cond = g.gen_bool(d)
